@@ -114,4 +114,67 @@ Definition s_laguer (a_ : (list (T CA))) (x_ : (T CA)) (iterations_ : nat) : res
   | inr r15 => Ok r15
   end.
 
+(* src/polynomial/mod.rs : impl Polynomial < Cmplx > :: fn poly_solve *)
+Definition s_poly_solve (coeffs_ : (list (T CA))) (refine_ : bool) : res (list (T CA)) :=
+  let* degree_ := usub (length coeffs_) 1 in
+  let poly_roots_ := (repeat (@zero CA) degree_) in
+  if (degree_ =? 0)%nat
+  then (Panic Guard)
+  else (let* poly_roots_ := if (degree_ =? 1)%nat
+           then (let* x2 := rd coeffs_ 0 in
+                let* x3 := rd coeffs_ 1 in
+                let* q4 := div (neg x2) x3 in
+                upd poly_roots_ 0 q4)
+           else (Ok poly_roots_) in
+       let* poly_roots_ := if (degree_ =? 2)%nat
+           then (let* a_ := rd coeffs_ 2 in
+                let* b_ := rd coeffs_ 1 in
+                let* c_ := rd coeffs_ 0 in
+                quadratic_solve RA a_ b_ c_)
+           else (Ok poly_roots_) in
+       let* poly_roots_ := if (degree_ =? 3)%nat
+           then (let* a_ := rd coeffs_ 3 in
+                let* b_ := rd coeffs_ 2 in
+                let* c_ := rd coeffs_ 1 in
+                let* d_ := rd coeffs_ 0 in
+                cubic_solve RA a_ b_ c_ d_)
+           else (Ok poly_roots_) in
+       let eps_ := (reps RA) in
+       let its_ := 0 in
+       let a_ := coeffs_ in
+       let* (poly_roots_, its_) := if (3 <? degree_)%nat
+           then (let ad_ := coeffs_ in
+                let* (poly_roots_, its_, ad_) := for_rev 0 degree_ (fun j_ (s18 : ((list (T CA)) * nat * (list (T CA)))) =>
+                        let '(poly_roots_, its_, ad_) := s18 in
+                        let x_ := (@zero CA) in
+                        let ad_v_ := (repeat (@zero CA) (j_ + 2)%nat) in
+                        let* ad_v_ := for_ 0 (j_ + 2)%nat (fun jj_ (ad_v_ : (list (T CA))) =>
+                                let* x14 := rd ad_ jj_ in
+                                upd ad_v_ jj_ x14) ad_v_ in
+                        let* (ad_v_, x_, its_) := (let* l := laguer RA ad_v_ x_ in Ok (ad_v_, lx l, liters l)) in
+                        let* x_ := if (leb (rfabs RA (kim RA x_)) (mul (mul (rlit RA 2) eps_) (rfabs RA (kre RA x_))))
+                            then (let x_ := (mkk RA (kre RA x_) (@zero A)) in
+                                 Ok x_)
+                            else (Ok x_) in
+                        let* poly_roots_ := upd poly_roots_ j_ x_ in
+                        let* b_ := rd ad_ (j_ + 1)%nat in
+                        let* (ad_, b_) := for_rev 0 (j_ + 1)%nat (fun jj_ (s17 : ((list (T CA)) * (T CA))) =>
+                                let '(ad_, b_) := s17 in
+                                let* c_ := rd ad_ jj_ in
+                                let* ad_ := upd ad_ jj_ b_ in
+                                let b_ := (add (mul x_ b_) c_) in
+                                Ok (ad_, b_)) (ad_, b_) in
+                        Ok (poly_roots_, its_, ad_)) (poly_roots_, its_, ad_) in
+                Ok (poly_roots_, its_))
+           else (Ok (poly_roots_, its_)) in
+       let* (poly_roots_, its_, a_) := if refine_
+           then (for_ 0 degree_ (fun j_ (s22 : ((list (T CA)) * nat * (list (T CA)))) =>
+                    let '(poly_roots_, its_, a_) := s22 in
+                    let* x19 := rd poly_roots_ j_ in
+                    let* (a_, n20, its_) := (let* l := laguer RA a_ x19 in Ok (a_, lx l, liters l)) in
+                    let* poly_roots_ := upd poly_roots_ j_ n20 in
+                    Ok (poly_roots_, its_, a_)) (poly_roots_, its_, a_))
+           else (Ok (poly_roots_, its_, a_)) in
+       Ok poly_roots_).
+
 End SrcRoots.
